@@ -70,6 +70,19 @@ pub mod a3 {
         s
     }
 
+    pub fn fkind(s: &dyn Shape) -> String {
+        match s.as_typed_shape() {
+            TypedShape::Ball(_) => "ball".into(), TypedShape::Cuboid(_) => "cuboid".into(), TypedShape::Capsule(_) => "capsule".into(),
+            TypedShape::Cone(_) => "cone".into(), TypedShape::Cylinder(_) => "cyl".into(), TypedShape::Segment(_) => "seg".into(),
+            TypedShape::Triangle(_) => "tri".into(), TypedShape::HalfSpace(_) => "hs".into(), TypedShape::ConvexPolyhedron(_) => "polyh".into(),
+            TypedShape::TriMesh(_) => "trimesh".into(), TypedShape::Polyline(_) => "polyline".into(), TypedShape::HeightField(_) => "hf".into(),
+            TypedShape::RoundCuboid(_) => "rcuboid".into(), TypedShape::RoundCylinder(_) => "rcyl".into(), TypedShape::RoundCone(_) => "rcone".into(),
+            TypedShape::RoundTriangle(_) => "rtri".into(), TypedShape::RoundConvexPolyhedron(_) => "rpolyh".into(),
+            TypedShape::Compound(c) => { let mut s = format!("compound {}", c.shapes().len()); for (_, sub) in c.shapes() { s.push(' '); s.push_str(&fkind(&*sub.0)); } s }
+            _ => "unknown-shape".into(),
+        }
+    }
+
     pub fn exec(func: &str, a: &mut Args) -> Option<String> {
         Some(match func {
             "acc3" => {
@@ -110,6 +123,9 @@ pub mod a3 {
                     t => panic!("bad acc3 kind {}", t),
                 }
             }
+            // routing of `Shape::scale_dyn`: which TypedShape variant comes back (recursively for compounds)
+            "scale_dyn_kind3" => { let s = super::super::ext::e3::sh(a); let sc = d3::v(a); let n = a.u() as u32;
+                match s.scale_dyn(&sc, n) { None => "none".into(), Some(r) => fkind(&*r) } }
             "aabb_scaled3" => { let lo = d3::p(a); let hi = d3::p(a); let sc = d3::v(a); fbox(&Aabb::new(lo, hi).scaled(&sc)) }
             _ => return None,
         })
@@ -379,6 +395,8 @@ pub mod g {
                     t.push_str(&format!(" {} {}", d2::hv(&(c - h)), d2::hv(&(c + h)))); }
                 v.push(("acc2".into(), format!("{} {} {} {}", s, d2::hv(&sc2), via, t)));
             }
+            // routing of scale_dyn over every shape kind and scale family (uniform / x=z / mixed signs / general)
+            for _ in 0..2 { v.push(("scale_dyn_kind3".into(), format!("{} {} {}", super::super::ext::g::shape3(r, lat), d3::hv(&super::super::ext::g::scale3(r, lat)), 3 + r.below(8)))); }
             // Aabb::scaled alone, every sign pattern (proper boxes, incl. flat ones)
             let lo = d3::gen_v(r, lat, 4.0); let e = V3::new(r.coord(lat, 2.0).abs(), r.coord(lat, 2.0).abs(), if it % 7 == 0 { 0.0 } else { r.coord(lat, 2.0).abs() });
             v.push(("aabb_scaled3".into(), format!("{} {} {}", d3::hv(&lo), d3::hv(&(lo + e)), d3::hv(&sc))));
